@@ -155,6 +155,8 @@ class Engine:
             return None
         if isinstance(ty, tuple) and ty[0] == "strmap":
             return z3.Const("%s.%s" % (tag, f), z3.ArraySort(I, z3.ArraySort(S, I)))
+        if isinstance(ty, tuple) and ty[0] == "strmap_s":
+            return z3.Const("%s.%s" % (tag, f), z3.ArraySort(I, z3.ArraySort(S, S)))
         if ty == "items":
             return z3.Const("%s.%s" % (tag, f), z3.ArraySort(I, z3.ArraySort(I, I)))
         return z3.Const("%s.%s" % (tag, f), z3.ArraySort(I, sort_of(ty)))
@@ -492,9 +494,16 @@ class Engine:
                     "sow_regex", "URL_REGEXP"):
             return VExt("lib:" + name)
         try:
-            return lift_const(s.module_const(m, name))
+            cv = s.module_const(m, name)
         except OutOfSubset:
+            cv = None
             pass
+        else:
+            if isinstance(cv, (dict, list, set)) and len(cv) == 0:
+                # an EMPTY module-level container can only be meant as mutable process-wide state:
+                # an opaque global object (reads are opaque, stores are recorded in the $mutated ghost)
+                return VObj(z3.Const("global_%s_%s" % (m, name), PyObj))
+            return lift_const(cv)
         raise OutOfSubset("unknown global name %s" % name)
 
     def ev_Tuple(s, n, st, out):
